@@ -4,11 +4,11 @@
        Forall is_missing_required errs
    under two exact side conditions on the parsed segment (both are genuine findings, refuted below
    without them): a segment that is not a Z-segment has no field beyond its table (finding F14: an
-   open-ended segment admits SEG_k for any k, the validator calls it an invalid child), and the
+   open-ended segment accepts SEG_k for any k, the validator calls it an invalid child), and the
    fields of a Z-segment are Z-fields (the Z-SEGMENT test is name[0]=='Z' and len 3, the Z-FIELD test
    is the regex ^z[a-z1-9]{2}_\d+$: 'Z0X|a' is parsed into a plain 'varies' field Z0X_1 which the
    validator cannot find in the tables: "Invalid element found").
-   The proof mirrors Proofs/ValidateTotal.v: what STRICT construction and STRICT admission
+   The proof mirrors Proofs/ValidateTotal.v: what STRICT construction and STRICT acceptance
    guarantee of the tree (datatype = the datatype of the reference, no unknown child below a complex
    parent, every child declared by the parent's structure, cardinalities within the maximum) is
    exactly what the validator checks besides the minimum cardinalities. *)
@@ -520,7 +520,7 @@ Proof.
     + now apply not_varies_child.
 Qed.
 
-(* STRICT admission below a complex parent: nothing unknown, nothing above its maximum *)
+(* STRICT acceptance below a complex parent: nothing unknown, nothing above its maximum *)
 Definition card_inv {A} (nm : A -> option str) (st : option structure) (l : list A) : Prop :=
   forall s n mn mx, st = Some s -> repetitions_of s n = Some (mn, mx) -> (mx > -1)%Z ->
                     (Z.of_nat (count_named nm (Some n) l) <= mx)%Z.
@@ -566,7 +566,7 @@ Qed.
 
 
 
-(* a component built under its table entry, with STRICT-admitted subcomponents *)
+(* a component built under its table entry, with STRICT-accepted subcomponents *)
 Definition cbuilt (c : comp) : Prop :=
   exists n, c_name c = Some n /\
     forall r, slookup n (t_components t) = Some r ->
@@ -759,7 +759,7 @@ Proof.
       cbn [structure_for] in S. injection S as <-. split; [now rewrite Hs|]. right. split; [reflexivity|exact Hd].
   - intros f [Hk [Hn Hx]].
     assert (Hi0 : card_inv c_name (f_st f) (f_children f)) by (rewrite Hk; intros s0 n mn mx _ _ Hm; cbn; lia).
-    (* what admission gives, whatever the children were *)
+    (* what acceptance gives, whatever the children were *)
     assert (Fin : forall kids f', add_comps t lvl f kids = Ok f' ->
               (forall st i, structure_for t FIE (upper n0) reference = Ok st -> st_reference st = SSeqDt i ->
                  f_st f = Some st ->
